@@ -25,6 +25,6 @@ for p_, k, t in sorted(known):
     sec += f"| {p_} | `{k}` | {t[:420].replace('|', '/')} |\n"
 sec += "\n"
 a = s.index("### 11.3 Findings on the unchanged tree")
-b = s.index("## Appendix A. How each regex")
+b = s.index("### 11.3b False alarms") if "### 11.3b False alarms" in s else s.index("### 11.4 Trusted base")
 open(p, 'w').write(s[:a] + sec + s[b:])
 print(len(fixed), "fixed,", len(known), "known")
